@@ -192,10 +192,10 @@ static void run_type(uint64_t seed)
     {
         const uint64_t space = sizeof(T) == 1 ? (1ull << 16) : (1ull << 32);
         uint64_t stride = 1, start = 0;
-        if (sizeof(T) == 2 && !ctx().tier)
+        if (sizeof(T) == 2)
         {
-            stride = 127; // prime: walks all residues of both operands
-            start = seed % 127;
+            stride = sweep_stride(127); // odd: walks all residues of both operands
+            start = seed % stride;
         }
         size_t fill = 0;
         for (uint64_t p = start; p < space; p += stride)
